@@ -21,7 +21,7 @@ PROPS["C20"] = dict(
           " boltzmann_kBT (executable csg_boltzmann, the consumer of conv::kB in csg): generated dimer trajectories, 2-3 temperatures set one "
           "after the other in ONE process; for populated bins U_i-U_j = -kB T ln(p_i/p_j) with the CODATA kB; non-trivial = >=2 temperatures and "
           "a non-flat histogram. crosstable also reads two-frame LAMMPS dumps with a changing box in plain, unwrapped and scaled columns; elements "
-          "are queried in all accessor orders on one object. Histories: dumps with two frames and a changing box for the x / xu / xs column flavours; every order of the Elements accessors on a fresh object; vv.exe_c20: csg_boltzmann writes tables at several temperatures in one process (U differences against -kB T ln p)."),
+          "are queried in all accessor orders on one object. Histories: dumps with two frames and a changing box for the x / xu / xs column flavours; every order of the Elements accessors on a fresh object; vv.exe_c20: csg_boltzmann writes tables at several temperatures in one process (U differences against -kB T ln p). elements: every tabulated mass m (and m +- 0.4 x gap to the nearest other mass) is looked up with tolerances 1e-9..10: the closest element must be returned when the tolerance admits it, an error otherwise."),
     assumptions=COMMON_ASSUME + [
         "kcal means the thermochemical kilocalorie (4.184 kJ), the calorie of kcal/mol force fields and LAMMPS 'real' units",
         "electron_volts_per_mole etc. are read literally (eV/mol), as the table values imply",
